@@ -25,3 +25,27 @@ Theorem C14_model_tables_shortest :
       cwalk k c ri (cn_name t) id u = follow (fun x => sp (c_graph c) x (cn_name t)) k u.
 Proof. exact cwalk_is_follow. Qed.
 Print Assumptions C14_model_tables_shortest.
+
+(* Part 3: on the hardware model, for every description under ID routing and on both networks: the number
+   of routers a flit traverses from s0's router r0 to t is exactly (length of a shortest path from r0 to t)
+   minus one -- `p` below is the verified reference oracle's path, minimal among all paths of the graph
+   (RefOracle.sp_ref_min).  Hypotheses as for C02_hw_delivered. *)
+From FV Require Import Build RefOracle HwProofs BuildProofs.
+Theorem C14_hw_shortest :
+  forall (d : desc) (g : graph) (c : compiled) (ri : rinfo) (n : netlist) (t : cni) (id : Z) (nt : net),
+    nt = Req \/ nt = Rsp ->
+    build d = Ok g -> compile d g = Ok c -> gen_routing_info sp_reference c = Ok ri -> emit c ri = Ok n ->
+    d_algo d = ID -> In t (c_nis c) -> id_num (cn_id t) = Ok id ->
+    (forall u p, is_router c u -> sp_reference g u (cn_name t) = Some p -> forall x, In x (removelast p) -> is_router c x) ->
+    chk_C05 n = [] ->
+    (forall r, In r (c_rts c) -> Z.of_nat (length (cr_out r)) <= 2 ^ 32) ->
+    forall s0 r0 p, In s0 (c_nis c) -> cn_name s0 <> cn_name t -> snd (attach nt s0) = r0 -> is_router c r0 ->
+      sp_reference g r0 (cn_name t) = Some p ->
+      S (length (t_rts (send n nt (emit_ni d (ri_offset ri) s0) (HId id)))) = length p /\
+      forall q, path_to_t (RefOracle.edge g) (cn_name t) q r0 -> (length p <= length q)%nat.
+Proof.
+  intros d g c ri n t id nt Hnt Hb Hc Hri He Ha Ht Hid Htr Hchk Hdeg s0 r0 p Hs0 Hne Hr0 Hrt Hsp. split.
+  - exact (proj2 (hw_send_ref d g c ri n t id nt Hnt Hb Hc Hri He Ha Ht Hid Htr Hchk Hdeg s0 r0 p Hs0 Hne Hr0 Hrt Hsp)).
+  - intros q Hq. exact (sp_ref_min g (cn_name t) r0 p q Hsp Hq).
+Qed.
+Print Assumptions C14_hw_shortest.
